@@ -835,7 +835,7 @@ func classifyPack(c PackCase) (bool, []string) {
 func TestPackRoundTrip(t *testing.T) {
 	pbt.Run(t, pbt.Spec[PackCase]{
 		ID: "C12", Name: "pack-roundtrip", Gen: genPack, Run: runPack, Classify: classifyPack,
-		Quick: 2500, Thorough: 25000,
+		Quick: 2500, Thorough: 20000,
 	})
 }
 
@@ -1219,6 +1219,6 @@ func classifyReorder(c ReorderCase) (bool, []string) {
 func TestReorder(t *testing.T) {
 	pbt.Run(t, pbt.Spec[ReorderCase]{
 		ID: "C12", Name: "reorder", Gen: genReorder, Run: runReorder, Classify: classifyReorder,
-		Quick: 2000, Thorough: 20000,
+		Quick: 2000, Thorough: 14000,
 	})
 }
